@@ -19,7 +19,7 @@ package aggregator
 // Oracle unchanged: decoded (string | int32, value) == independent parse of the written bytes (which the per-row
 // checks tie to what the aggregator held and to the reference merge).
 //
-// Part insert-body-host-block adds the alphabet this needs: three keys x {string max/min hosts of equal length "aa"/"bb"
+// Part insert-body-host-block adds the alphabet this needs: two (thorough: three) keys x {string max/min hosts of equal length "aa"/"bb"
 // (both ways round), a long string host (8 bytes, longer than the reader's initial scratch) with an int min host,
 // counter only (empty min/max states), value without explicit hosts (agent's int or string host)} x two agents.
 
@@ -307,9 +307,9 @@ func c03BlockReadBack(dec *c03Dec, rows []c03Row, caseName string) {
 
 // c03HostBlockTemplates: see the file comment. Values differ per key and shape so that which contribution holds the
 // min / max of a merged row is decided by the values.
-func c03HostBlockTemplates() []c03Tmpl {
+func c03HostBlockTemplates(keys int) []c03Tmpl {
 	var out []c03Tmpl
-	for k := 0; k < 3; k++ {
+	for k := 0; k < keys; k++ {
 		tags := map[int]int32{1: int32(11 + k)}
 		kn := fmt.Sprintf("H%d", k+1)
 		out = append(out,
@@ -342,6 +342,8 @@ func c03PublishBlockFindings(stat *c03Stats) {
 		rep.Violate("C03:"+v.sig, v.msg+" [contributions: "+v.cs+"]", map[string]any{"contributions": v.cs, "family": "host columns read back as blocks",
 			"executions_with_this_signature": s.violCount[v.sig]})
 	}
+	rep.Rule += "; plus every sequence of 1..3 contributions of 2 agents x (2, thorough 3 keys) x 5 host shapes (string max/min hosts of equal length both ways round, an 8-byte string host with an int host, counter only = empty states, agent host); and for every body of every part the min_host / max_host / max_count_host states of all user rows read back as a query result: one column object per column, rows in every order x every cut into consecutive blocks (Reset + DecodeColumn per block), compared after the last block"
+	rep.Assume("the API reads host columns as ch-go delivers them: one column object per column, Reset() + DecodeColumn(rows) per block, elements copied out after each block (proto.Results.DecodeResult, api/handler.go rowAt)")
 	rep.Bounds["host_block_results_decoded"] = s.results
 	rep.Bounds["host_block_results_with_a_block_of_2+_rows"] = s.multiRow
 	rep.Bounds["host_block_results_with_2+_blocks"] = s.multiBlk
